@@ -146,7 +146,8 @@ def r14_2(ctx, prog, crate):
     for c in prog.callers_of("benchmark::Bencher::new", "benchmark::BenchContext::new", crates=[crate]):
         if c.body.path.startswith("benchmark::tests::"):
             continue
-        ctx.check(c.body.path.startswith("divan::Divan::run_bench_entry::"), "R14.2", ["constructor", c.callee, c.body.path],
+        from .common import hosted_in
+        ctx.check(c.body.path != "divan::Divan::run_bench_entry" and c.body.kind == "Closure" and hosted_in(prog, c.body, "divan::Divan::run_bench_entry"), "R14.2", ["constructor", c.callee, c.body.path],
                   "`%s` is called from `%s` (only the run_bench closure of run_bench_entry may)" % (c.callee, c.body.path), c.line())
     # run_action: terse listing returns before run_tree
     ra = prog.body("divan::Divan::run_action", crate)
